@@ -264,6 +264,10 @@ var table = map[string]func(int) int{
 	w("tagged/tool.go", "//go:build ignore\n\npackage main\n\nfunc main() {}\n")
 	wantErr["tagged/tool.go"] = "excluded by build constraint"
 	w("tagged/ok.go", "package tagged\n\nfunc Fine() int { return 1 }\n")
+	// two stand-alone tools (`//go:build ignore`, each alone in its directory): both load as the package
+	// "command-line-arguments", so their functions have the SAME package-qualified names
+	w("tools/gena/gen.go", "//go:build ignore\n\npackage main\n\nfunc helper() int { return 1 }\n\nfunc main() { println(helper()) }\n")
+	w("tools/genb/gen.go", "//go:build ignore\n\npackage main\n\nimport \"os\"\n\nfunc helper() int {\n\tif len(os.Args) > 3 {\n\t\treturn 7\n\t}\n\treturn 2\n}\n\nfunc main() {\n\tfor i := 0; i < helper(); i++ {\n\t\tprintln(i)\n\t}\n}\n")
 	big := make([]byte, 0, cli.MaxSourceFileSize+4096)
 	big = append(big, []byte("package huge\n\nfunc Huge() {}\n\n// ")...)
 	for len(big) < cli.MaxSourceFileSize+100 {
@@ -483,7 +487,31 @@ func suiteWalk(c *Ctx) error {
 		// `sfw scan` on the same tree: the JSON report must say which collected files it could not analyse
 		{
 			dbp := filepath.Join(c.Work, fmt.Sprintf("cov%d-sigs.json", mi))
-			os.WriteFile(dbp, []byte(`{"version":"1","signatures":[]}`), 0o644)
+			// the database is indexed from the tree itself: every function that `sfw index` saw must be
+			// found again by `sfw scan` of the same tree (its own signature at confidence 1)
+			var indexedIDs []string
+			{
+				oldOut := os.Stdout
+				isink, _ := os.Create(filepath.Join(c.Work, "index.out"))
+				os.Stdout = isink
+				ierr := cli.RunIndex(root, "Cov", "HIGH", "malware", dbp)
+				os.Stdout = oldOut
+				isink.Close()
+				if ierr != nil {
+					os.WriteFile(dbp, []byte(`{"version":"1","signatures":[]}`), 0o644)
+				} else if rawIdx, err := os.ReadFile(filepath.Join(c.Work, "index.out")); err == nil {
+					var io struct {
+						Indexed []struct {
+							ID string `json:"id"`
+						} `json:"indexed"`
+					}
+					if json.Unmarshal(rawIdx, &io) == nil {
+						for _, x := range io.Indexed {
+							indexedIDs = append(indexedIDs, x.ID)
+						}
+					}
+				}
+			}
 			old := os.Stdout
 			sinkPath := filepath.Join(c.Work, "scan.out")
 			sink, _ := os.Create(sinkPath)
@@ -499,6 +527,37 @@ func suiteWalk(c *Ctx) error {
 			} else if jerr := json.Unmarshal(raw, &so); jerr != nil {
 				c.Violate("C16", "C16/scan-output-not-json", jerr.Error(), map[string]interface{}{"stdout": trunc(string(raw), 2000)})
 			} else {
+				// every function body of every analysable collected file is scanned at least once
+				astTotal := 0
+				for _, f := range files {
+					if _, bad := wantErr[strings.TrimPrefix(f, root+"/")]; bad {
+						continue
+					}
+					if exp, err := expectedFunctions(f); err == nil {
+						astTotal += len(exp)
+					}
+				}
+				if so.TotalScanned < astTotal {
+					c.Violate("C16", "C16/scan-skips-functions", fmt.Sprintf("`sfw scan`: total_functions_scanned=%d, but the analysable files of the tree contain %d function bodies (go/parser)", so.TotalScanned, astTotal),
+						map[string]interface{}{"module_root": root, "scan_output": trunc(string(raw), 3000)})
+				}
+				hit := map[string]bool{}
+				for _, a := range so.Alerts {
+					if a.Confidence == 1.0 {
+						hit[a.SignatureID] = true
+					}
+				}
+				var lost []string
+				for _, id := range indexedIDs {
+					if !hit[id] {
+						lost = append(lost, id)
+					}
+				}
+				c.Count(fmt.Sprintf("indexed_then_scanned_%d", len(indexedIDs)))
+				if len(lost) > 0 {
+					c.Violate("C16", "C16/scan-never-reaches-an-indexed-function", fmt.Sprintf("`sfw index` of the tree stored %d signatures; `sfw scan` of the same tree raises no confidence-1 alert for %d of them (%v): those functions were not scanned", len(indexedIDs), len(lost), trunc(fmt.Sprint(lost), 200)),
+						map[string]interface{}{"module_root": root, "scan_output": trunc(string(raw), 4000)})
+				}
 				var silent []string
 				for rel, why := range wantErr {
 					if !strings.Contains(so.Error, filepath.Base(rel)) {
